@@ -107,6 +107,15 @@ def _mutate(r, base: Dict[str, Any]) -> List[Dict[str, Any]]:
             a, b = b, a
         path = [r.choice(["gel", r.choice(KEYS)])] + [r.choice(KEYS) for _ in range(r.randint(0, 1))]
         edits.append({"path": path, "kind": "twin", "base_value": a, "value": b})
+    if r.chance(0.25):
+        # ... and the same inside a dictionary that sits in a LIST (lists are compared as values, element by element): an applied
+        # delta, a merge record
+        a, b = r.choice(_TWINS[:5] + [(2, 2.0)])
+        if r.chance(0.5):
+            a, b = b, a
+        lk = r.choice(["deltas", "merges", r.choice(KEYS)])
+        edits.append({"path": [lk], "kind": "twin", "base_value": [{"id": "n1", "v": a, "keep": [1, "x"]}, 7],
+                      "value": [{"id": "n1", "v": b, "keep": [1, "x"]}, 7]})
     if r.chance(0.15):
         # the in-memory base holds ONE sub-object under two keys (a payload assembled from shared pieces); only one of them changes
         k1, k2 = r.sample(KEYS[:6], 2)
